@@ -387,7 +387,8 @@ class C05(Prop):
     id = "C05"
     title = "after any LPC error the machine state is as before the failed call"
     lean_modules = ["NV.C05.Exec", "NV.C05.Guards", "NV.C05.Props", "NV.C05.Witness"]
-    theorems = ["NV.C05.saveContext_refuses_iff", "NV.C05.catch_refused", "NV.C05.safeApply_refused",
+    theorems = ["NV.C05.safeApply_all_arities", "NV.C05.call_all_arities", "NV.C05.safeFinish_total",
+                "NV.C05.saveContext_refuses_iff", "NV.C05.catch_refused", "NV.C05.safeApply_refused",
                 "NV.C05.context_chain_restored_any", "NV.C05.model_satisfies_spec", "NV.C05.exec_keeps_extension", "NV.C05.top_restores", "NV.C05.catch_yields_message_exec",
                 "NV.C05.guards_reset_first_level", "NV.C05.exec_guards", "NV.C05.execCore_guards",
                 "NV.C05.restoreContext_guards", "NV.C05.exec_good", "NV.C05.execCore_good", "NV.C05.raise_rspec",
@@ -502,7 +503,8 @@ class C05(Prop):
         # a safe apply with two surplus arguments made from INSIDE an LPC evaluation: compiling a broken file makes the
         # compiler call master::log_error(file, message), declared without parameters in the C05 master
         B.append(fixed_case("b-arity-log_error", 'a = ({ 1, 2, 3 }); ' + CATCHSTMT % 'load_object ("/c05/gen/BAD")' + ' VL ("say kept-" + sizeof (a));',
-                            "(catch (tmp 1 (load (safe 2 0 (say compile-error)) (raisemsg *Error in loading object '/c05/gen/BAD':)))) (saycatch) (say kept-3)",
+                            # (the error after the safe apply is raised by the same efun, not by an LPC instruction: `craise`)
+                            "(catch (tmp 1 (load (safe 2 0 (say compile-error)) (craise *Error in loading object '/c05/gen/BAD':)))) (saycatch) (say kept-3)",
                             extra_files={"BAD": "void create () { int x = ; }\n"}))
         # arity: safe_apply() from driver level with surplus / missing arguments (-3..+3), few / many locals
         for passed in range(4):
